@@ -376,6 +376,8 @@ def c17(tier):
     rel_events(run, groups, "C17")
     run.samples.append({"base": groups[0][0][0]["input"], "variant": groups[0][1][0]["input"]})
     run.validate(shard=1200)
+    # the model forwards on the variants themselves (CRLF, final line breaks, trailing blanks; tabs are outside the model)
+    full_conformance(run, [c["input"] for g in groups for (c, _) in g], "C17G", 250 if tier == "quick" else 6000)
     run.assumptions = std_assumptions()
     return run.finish()
 
@@ -735,6 +737,8 @@ def c15(tier):
     rel_events(run, groups, "C15")
     run.samples.append({"a": groups[1][0][0]["input"], "b": groups[1][1][0]["input"]})
     run.validate(shard=1500)
+    # the model forwards on the quoted inputs
+    full_conformance(run, [g[0][0]["input"] for g in groups], "C15G", 250 if tier == "quick" else 6000)
     run.assumptions = std_assumptions()
     return run.finish()
 
